@@ -4,51 +4,72 @@ import GoomVerif.Model.Iface
 namespace C07F
 open Iface
 
-def init2 : St := St.init (fun _ => sortMeths ["B", "A"]) (fun _ => 0) (fun _ => .val 0)
+def init2 : St := St.init (fun _ => sortMeths ["B", "A"]) (fun _ => 0) (fun _ => .val 0) (fun _ => [0, 0, 0])
 
 /-- F11: two variables (0 and 1) of the same interface type mocked in one builder: with the cache keyed by the type
     string the second mock lands in variable 0 (which now dispatches `A` to callback 1) and variable 1 stays nil. -/
 theorem F11_second_variable_ignored :
-    (run Cfg.old init2 [.mock 0 0 "A" .ap true, .mock 0 1 "A" .ap true]).map (fun s => (s.vars 1, callSlot s 0 "A"))
+    (run Cfg.old init2 [.mock 0 0 "A" .ap 0, .mock 0 1 "A" .ap 0]).map (fun s => (s.vars 1, callSlot s 0 "A"))
       = some (.val 0, some (.stub 1)) := by decide
 
 /-- with the repaired key both variables are mocked, each with its own callback -/
 theorem F11_repaired :
-    (run Cfg.fixed init2 [.mock 0 0 "A" .ap true, .mock 0 1 "A" .ap true]).map (fun s => (callSlot s 1 "A", callSlot s 0 "A"))
+    (run Cfg.fixed init2 [.mock 0 0 "A" .ap 0, .mock 0 1 "A" .ap 0]).map (fun s => (callSlot s 1 "A", callSlot s 0 "A"))
       = some (some (.stub 1), some (.stub 0)) := by decide
 
 /-- F9: two methods stubbed with `As(..).Return(..)`: the variable still dispatches `A` to MakeFunc impl 0, which is needed
     but not reachable from any root (the variable, the live builder) through GC-visible pointers — `proxyFunc` keeps
     only the last one. -/
 theorem F9_first_makefunc_unreachable :
-    (run Cfg.old init2 [.mock 0 0 "A" .rt true, .mock 0 0 "B" .rt true]).map
+    (run Cfg.old init2 [.mock 0 0 "A" .rt 0, .mock 0 0 "B" .rt 0]).map
         (fun s => ((needed s 0).contains (.mfi 0), (bfs s 64 [.var 0, .bld 0] []).contains (.mfi 0)))
       = some (true, false) := by decide
 
 /-- F9: a plain `Apply` callback is needed but unreachable once the builder is dropped -/
 theorem F9_callback_unreachable_after_drop :
-    (run Cfg.old init2 [.mock 0 0 "A" .ap true, .drop 0]).map
+    (run Cfg.old init2 [.mock 0 0 "A" .ap 0, .drop 0]).map
         (fun s => ((needed s 0).contains (.clo 0), (bfs s 64 [.var 0, .bld 0] []).contains (.clo 0)))
       = some (true, false) := by decide
 
 theorem F9_repaired :
-    (run Cfg.fixed init2 [.mock 0 0 "A" .rt true, .mock 0 0 "B" .rt true, .mock 0 0 "A" .ap true, .drop 0]).map
+    (run Cfg.fixed init2 [.mock 0 0 "A" .rt 0, .mock 0 0 "B" .rt 0, .mock 0 0 "A" .ap 0, .drop 0]).map
         (fun s => (needed s 0).all (fun n => (bfs s 64 [.var 0, .bld 0] []).contains n))
       = some true := by decide
 
 /-- F14 (known finding, code as it is): through a handle kept across `Reset` the context stays canceled, every `Apply`
     builds a fresh itab, so after re-mocking `A` and then `B` only `B` is mocked. -/
 theorem F14_kept_handle_second_remock_wipes_first :
-    (run Cfg.fixed init2 [.mockH 0 0 "A" .ap true, .reset 0, .mockH 0 0 "A" .ap true, .mockH 0 0 "B" .ap true]).map
+    (run Cfg.fixed init2 [.mockH 0 0 "A" .ap 0, .reset 0, .mockH 0 0 "A" .ap 0, .mockH 0 0 "B" .ap 0]).map
         (fun s => (callSlot s 0 "A", callSlot s 0 "B"))
       = some (some .notImpl, some (.stub 2)) := by decide
 
 /-- a single re-mock through the kept handle is fine, and the next `Reset` restores the variable -/
 theorem F14_single_remock_ok :
-    (run Cfg.fixed init2 [.mockH 0 0 "A" .ap true, .mockH 0 0 "B" .ap true, .reset 0, .mockH 0 0 "A" .ap true]).map
+    (run Cfg.fixed init2 [.mockH 0 0 "A" .ap 0, .mockH 0 0 "B" .ap 0, .reset 0, .mockH 0 0 "A" .ap 0]).map
         (fun s => (callSlot s 0 "A", callSlot s 0 "B"))
       = some (some (.stub 2), some .notImpl)
-    ∧ (run Cfg.fixed init2 [.mockH 0 0 "A" .ap true, .reset 0, .mockH 0 0 "A" .ap true, .reset 0]).map (fun s => s.vars 0)
+    ∧ (run Cfg.fixed init2 [.mockH 0 0 "A" .ap 0, .reset 0, .mockH 0 0 "A" .ap 0, .reset 0]).map (fun s => s.vars 0)
       = some (.val 0) := by decide
+
+/-- F27: the full statement `C07.SlotIsTypeIndex` is false for the code as it is — `methodIndexOf` compares names only, so
+    with an embedded foreign unexported `ecdh` the own method `ecdh` (position 3) is looked up at position 2. -/
+theorem F27_same_name_foreign_method :
+    let ms := sortMeths ["ecdh", "NewKey", "ecdh@crypto/ecdh", "GenerateKey"]
+    ms = ["GenerateKey", "NewKey", "ecdh@crypto/ecdh", "ecdh"] ∧ methodIndexOf ms "ecdh" = 2 ∧ ms.idxOf "ecdh" = 3 := by decide
+
+def init3 : St := St.init (fun _ => sortMeths ["B", "A"]) (fun _ => 0) (fun _ => .val 0) (fun _ => [0, 0])
+
+/-- F28: one variable mocked through two builders — builder 1's first mock installs a fresh itab that knows only `B`
+    (builder 0's `A` is gone), and after both Resets the variable holds builder 0's stale fake interface instead of nil. -/
+theorem F28_two_builders_one_variable :
+    (run Cfg.fixed init3 [.mock 0 0 "A" .ap 0, .mock 1 0 "B" .ap 0]).map (fun s => (callSlot s 0 "A", callSlot s 0 "B"))
+      = some (some .notImpl, some (.stub 1))
+    ∧ (run Cfg.fixed init3 [.mock 0 0 "A" .ap 0, .mock 1 0 "B" .ap 0, .reset 0, .reset 1]).map (fun s => s.vars 0)
+      = some (.fake 0 0) := by decide
+
+/-- F29: a second `Reset` of the same builder writes the old backup over the value the test assigned after the first one -/
+theorem F29_reset_again_clobbers_assignment :
+    (run Cfg.fixed init3 [.mock 0 0 "A" .ap 0, .reset 0, .assign 0 7, .reset 0]).map (fun s => s.vars 0) = some (.val 0) := by
+  decide
 
 end C07F
